@@ -27,7 +27,7 @@ func (f foreignSigner) Sign(io.Reader, []byte, crypto.SignerOpts) ([]byte, error
 
 func signerKeyOfKind(kind string) crypto.Signer {
 	switch kind {
-	case "rsa1024", "rsa2047", "rsa2048", "rsa3072":
+	case "rsa1024", "rsa2047", "rsa2048", "rsa3072", "rsa2048e3":
 		return keyFor(kind)
 	case "rsa2048-opaque":
 		return opaqueSigner{keyFor("rsa2048")}
@@ -60,7 +60,7 @@ func signerKeyOfKind(kind string) crypto.Signer {
 
 func publicKeyOfKind(kind string) crypto.PublicKey {
 	switch kind {
-	case "rsa1024", "rsa2047", "rsa2048", "rsa3072", "p224", "p256", "p384", "p521", "ed":
+	case "rsa1024", "rsa2047", "rsa2048", "rsa3072", "rsa2048e3", "p224", "p256", "p384", "p521", "ed":
 		return signerKeyOfKind(kind).Public()
 	case "offcurve":
 		k := keyFor("p256-a").(*ecdsa.PrivateKey)
